@@ -132,6 +132,7 @@ def replay(header, obs, backend="lambda", seed=0, compare_fresh=True):
     since = {e: [] for e in build.ARRAY_EVALUATORS}     # mutation kinds since e was last evaluated
     first_after = False
     pairs = set()
+    bystander = None
     for c, step in enumerate(obs, start=1):
         if step["act"] != "Evaluate":
             try:
@@ -141,6 +142,18 @@ def replay(header, obs, backend="lambda", seed=0, compare_fresh=True):
             for e in since:
                 since[e].append(kind_of(step))
             first_after = True
+            # model objects are independent: what happens to ANOTHER object between a modification of this one and its
+            # next evaluation is of no concern to it.  A bystander (built once, from the definition the live object had at
+            # that moment) is evaluated here on half of the occasions.
+            if bystander is not None and rng.random() < 0.5:
+                nb = bystander[1]
+                for e2 in build.ARRAY_EVALUATORS:
+                    if nb[2] == 0 and e2 in ("vMat", "eventRateVector", "transitionJacobian", "transitionMean", "transitionVar"):
+                        continue
+                    try:
+                        build.evaluate(bystander[0], e2, X, T, 2, nb[1], nb[2])
+                    except Exception:
+                        pass
             continue
         e = step["e"]
         ne = len(live.events)
@@ -157,6 +170,11 @@ def replay(header, obs, backend="lambda", seed=0, compare_fresh=True):
         except Exception as ex:
             return {"step": c, "what": "evaluation raised", "e": e, "detail": repr(ex)[:300]}, pairs
         compiled.add(e)
+        if bystander is None:
+            try:
+                bystander = (live.fresh(), (2, live.np, ne))
+            except Exception:
+                bystander = None
         if got.shape != exp.shape or not np.all(np.abs(got - exp) <= 1e-9 * (sc + np.abs(got)) + 1e-300):
             return {"step": c, "what": "evaluator is not the function of the current definition", "e": e,
                     "got": got.tolist(), "expected": exp.tolist(), "after": last_mut}, pairs
